@@ -17,7 +17,7 @@ RULE = ('hierarchical spaces from random refinement histories (nested/corner/iso
         'physical coefficient (also one vanishing on part of the domain), L2 functionals physical/parametric} x geometries {identity, affine, bilinear/'
         'annulus}; distinct by (space, form, geometry); non-trivial if the space has >= 2 levels')
 MIN_NONTRIVIAL = {'quick': 40, 'thorough': 800}
-REQUIRED_COUNTERS = ['oracle:matrix_entries', 'oracle:vector_entries', 'oracle:thb_congruence', 'oracle:symmetric_flag', 'oracle:fine_galerkin']
+REQUIRED_COUNTERS = ['oracle:matrix_entries', 'oracle:vector_entries', 'oracle:thb_congruence', 'oracle:symmetric_flag', 'oracle:fine_galerkin', 'oracle:default_rhs']
 WORKERS = {'quick': 16, 'thorough': 16}
 TIMEOUT = {'quick': 3000, 'thorough': 14000}
 ASSUMPTIONS = ['level-l tensor-product matrices/vectors are taken from assemble.assemble on the tensor spaces (property C01)',
@@ -174,3 +174,25 @@ def run_case(rec, case):
         if b.shape != ref.shape:
             rec.violation(dict(sig, oracle='shape'), c, {'got': list(b.shape)}); return
         rec.check_close('vector_entries', float(np.abs(b - ref).max()), 1e-11 * (np.abs(bref).max() + 1e-300) * (10 if hs.truncate else 1), sig, c)
+    # ---- the default right-hand side of a hierarchical discretization: <f, v> with f given in physical coordinates
+    if case['idx'] % 2 == 0:
+        from pyiga import vform as V
+        from pyiga._hdiscr import HDiscretization
+        cf = rng.uniform(0.5, 1.5, dim + 1)
+        f = (lambda *X: cf[0] + sum(cf[i + 1] * np.sin(1.3 * X[i] + 0.2 * i) for i in range(dim)))
+        sigr = dict(sig, route='HDiscretization.assemble_rhs()', form='default L2 functional')
+        lv_rhs = []
+        for m in range(L):
+            ok, bm = guarded(rec, c, dict(sigr, stage='tensor-product level assembly'), assemble.assemble, V.L2functional_vf(dim, physical=True), hs.knotvectors(m), f=f, geo=geo)
+            if not ok: return
+            lv_rhs.append(np.asarray(bm, dtype=float).ravel())
+        bref = np.zeros(n)
+        for k in range(L):
+            if len(act[k]): bref[offs[k]:offs[k + 1]] = lv_rhs[k][act[k]]
+        ref = Tref.T @ bref if hs.truncate else bref
+        ok, b = guarded(rec, c, sigr, lambda: HDiscretization(hs, None, {'f': f, 'geo': geo}).assemble_rhs())
+        if ok:
+            rec.count('oracle:default_rhs')
+            b = np.asarray(b, dtype=float)
+            if b.shape != ref.shape: rec.violation(dict(sigr, oracle='shape'), c, {'got': list(b.shape)})
+            else: rec.check_close('default_rhs', float(np.abs(b - ref).max()), 1e-11 * (np.abs(bref).max() + 1e-300) * (10 if hs.truncate else 1), sigr, c)
